@@ -6,6 +6,7 @@ import ast
 
 from sa.cfg import cfg_of
 from sa.facts import result_sites
+from sa.guards import atoms as _atoms
 from sa.guards import GuardView, atom_of, names_in, or_parts
 from sa.index import own_nodes
 from sa.report import Ctx
@@ -104,6 +105,10 @@ def run(ctx: Ctx):
     sm = ctx.func("milp", "solve_milp")
     _need(ctx, "C04-O11", "R16 PAIRED-EFFECTS", sm, "branching: the left child caps the variable at floor(v), the right child raises it to ceil(v); both inherit the node's other bounds and the node's LP value as bound", ["val = result.solution[frac_var]\n        child_bound = sign * result.objective", "lower_left, upper_left = (list(node.lower), list(node.upper))\n        upper_left[frac_var] = floor(val)\n        heappush(tree, (child_bound, counter, Node(child_bound, tuple(lower_left), tuple(upper_left), node.depth + 1)))\n        counter += 1", "lower_right, upper_right = (list(node.lower), list(node.upper))\n        lower_right[frac_var] = ceil(val)\n        heappush(tree, (child_bound, counter, Node(child_bound, tuple(lower_right), tuple(upper_right), node.depth + 1)))\n        counter += 1"])
     _need(ctx, "C04-O11", "R6 INCUMBENT", sm, "an integral node replaces the incumbent exactly when it is strictly better in the caller's sense", ["sol = tuple(result.solution)\n            sol_obj = result.objective", "if sign * sol_obj < sign * best_obj:\n                best_solution, best_obj = (sol, sol_obj)"])
+    _need(ctx, "C04-O11", "R1 STATUS-GUARD", sm, "a node is dropped unsolved only when its bound cannot beat the incumbent; a solved node is dropped when its LP is not optimal or its value cannot beat the incumbent", ["if best_solution is not None and node_bound >= sign * best_obj - eps:\n            continue", "result = _solve_node(c, A, b, node.lower, node.upper, minimize, eps, max_iter)", "if result.status != LPStatus.OPTIMAL:\n            if result.status == LPStatus.MAX_ITER:\n                lp_budget_hit = True\n            continue", "lp_budget_hit = False", "if best_solution is not None and sign * result.objective >= sign * best_obj - eps:\n            continue", "frac_var = _most_fractional(result.solution, int_set, eps)\n        if frac_var is None:"], "a pruning test that fires in other cases discards nodes that may hold the optimum while the emptied tree still yields OPTIMAL")
+    _need(ctx, "C04-O11", "R16 PAIRED-EFFECTS", sm, "the search starts from the root relaxation: its value (in minimisation form) is the root's bound and the root is the first open node", ["sign = 1 if minimize else -1", "root_bound = sign * root_result.objective\n    heappush(tree, (root_bound, counter, Node(root_bound, tuple(lower), tuple(upper), 0)))\n    counter += 1", "node_bound, _, node = heappop(tree)"], "without the root in the tree the loop never runs and whatever the heuristics found is labelled OPTIMAL")
+    _need(ctx, "C04-O6", "R1 STATUS-GUARD", ctx.func("milp", "_detect_binary"), "a variable counts as bounded by 1 only through a row with right-hand side 1 whose single non-zero entry - over all columns, continuous ones included - is a 1 in that integer column; all integer variables must be bounded that way", ["if abs(b[i] - 1.0) > eps:\n            continue", "nz = [(j, row[j]) for j in range(n) if abs(row[j]) > eps]", "if len(nz) == 1:\n            j, coef = nz[0]\n            if j in int_set and abs(coef - 1.0) < eps:\n                bounded.add(j)", "return len(bounded) == len(int_set) and len(int_set) > 0"], "a row such as x - 2y <= 1 with y continuous is no bound on x: taking it for one clamps x to [0, 1] in every node LP and a cut-off optimum is reported OPTIMAL")
+    _need(ctx, "C04-O11", "R6 INCUMBENT", sm, "heuristic incumbents: a warm start is taken only if it has the right length and is feasible, the LNS result only if it is strictly better than the incumbent, each with the objective recomputed from c", ["if len(ws) == n and _is_feasible(ws, A, b, int_set, eps):\n            best_obj = sum((c[j] * ws[j] for j in range(n)))\n            best_solution = ws", "improved_obj = sum((c[j] * improved[j] for j in range(n)))\n            if minimize and improved_obj < best_obj or (not minimize and improved_obj > best_obj):\n                best_solution, best_obj = (improved, improved_obj)", "best_obj = sum((c[j] * rounded[j] for j in range(n)))\n            best_solution = rounded"])
 
     generic_sweeps(ctx)
 
@@ -353,7 +358,17 @@ def check_verdicts(ctx: Ctx, f):
         blk = _blk_of(f.node, b)
         pushed_back = any(isinstance(x, ast.Expr) and isinstance(x.value, ast.Call) and ast.unparse(x.value.func) == "heappush" and ast.unparse(x.value.args[0]) == heap for x in blk[: blk.index(b)])
         ctx.ob("C04-O4", "R2 BUDGET-EXIT", f, "a `break` out of the node loop does not abandon the node that was just popped", pushed_back, f"the popped node is no longer in `{heap}`: if it was the last one, `not {heap}` after the loop reads as an exhausted search and the incumbent is labelled OPTIMAL (or the problem INFEASIBLE)", node=b)
+    rootuse = [n for n in own_nodes(f.node) if isinstance(n, ast.Assign) and "root_result.solution" in ast.unparse(n.value) and "_most_fractional" in ast.unparse(n.value)]
+    ctx.floor("uses of the root relaxation's point", len(rootuse), 1)
+    for n in rootuse:
+        at = gv.guard_atoms(cfg.node_of(n), stable_only=False)
+        need = {atom_of(f"root_result.status != LPStatus.{x}") for x in ("INFEASIBLE", "UNBOUNDED", "MAX_ITER")}
+        ctx.ob("C04-O4", "R2 BUDGET-EXIT", f, "the root relaxation's point is read only after its status was found to be neither INFEASIBLE, UNBOUNDED nor MAX_ITER", need <= at, f"missing {sorted(need - at)}: an unsolved root LP hands back an all-zero placeholder, which is integral and would be returned as the optimum", node=n)
+    gapret = [s_ for s_ in sites if s_.node.loop is not None and "OPTIMAL" in s_.statuses and atom_of("gap < gap_tol") in gv.guard_atoms(s_.node, stable_only=False)]
+    for s_ in gapret:
+        ctx.ob("C04-O4", "R2 BUDGET-EXIT", f, "the gap-based early OPTIMAL is not taken once a node LP went unresolved", "F:lp_budget_hit" in gv.guard_atoms(s_.node, stable_only=False), "the unresolved node had a bound no worse than the current one: the gap computed from the current bound understates what is still open", node=s_.call)
     n_exact_after = 0
+    lp_disc: dict = {}
     for k, s in enumerate(sites):
         at = gv.guard_atoms(s.node)
         after_loop = s.node.loop is None and s.node.id in cfg.forward(loop)
@@ -369,13 +384,20 @@ def check_verdicts(ctx: Ctx, f):
                     for d in own_nodes(f.node):
                         if isinstance(d, ast.Assign) and ast.unparse(d.targets[0]) == st_expr.id and isinstance(d.value, ast.IfExp):
                             t, b, o = d.value.test, d.value.body, d.value.orelse
-                            if ast.unparse(t) == f"not {heap}" and ast.unparse(b) == f"Status.{st}":
+                            if f"F:{heap}" in _atoms(t, True) and ast.unparse(b) == f"Status.{st}":
                                 disc = True
-                            if ast.unparse(t) == heap and ast.unparse(o) == f"Status.{st}":
+                                lp_disc.setdefault(k, set()).update(_atoms(t, True))
+                            if f"F:{heap}" in _atoms(t, False) and ast.unparse(o) == f"Status.{st}":
                                 disc = True
+                                lp_disc.setdefault(k, set()).update(_atoms(t, False))
                 if not disc and isinstance(st_expr, ast.IfExp):
                     t, b, o = st_expr.test, st_expr.body, st_expr.orelse
-                    disc = (ast.unparse(t) == f"not {heap}" and ast.unparse(b) == f"Status.{st}") or (ast.unparse(t) == heap and ast.unparse(o) == f"Status.{st}")
+                    disc = (f"F:{heap}" in _atoms(t, True) and ast.unparse(b) == f"Status.{st}") or (f"F:{heap}" in _atoms(t, False) and ast.unparse(o) == f"Status.{st}")
+                    if f"F:{heap}" in _atoms(t, True):
+                        lp_disc.setdefault(k, set()).update(_atoms(t, True))
+                    if f"F:{heap}" in _atoms(t, False):
+                        lp_disc.setdefault(k, set()).update(_atoms(t, False))
+                ctx.ob("C04-O4", "R2 BUDGET-EXIT", f, f"Result#{k} {st} after the B&B loop is given only if no node LP ran out of simplex iterations", "F:lp_budget_hit" in (lp_disc.get(k, set()) | at), "a node whose LP ended in MAX_ITER is dropped unexplored: the emptied tree then proves neither optimality nor infeasibility", node=s.call)
                 ctx.ob("C04-O4", "R2 BUDGET-EXIT", f, f"Result#{k} {st} after the B&B loop is discriminated from the node-budget exit", disc, f"the loop also ends when nodes_explored reaches max_nodes with `{heap}` non-empty; guards {sorted(a for a in at if heap in a or 'best' in a)}", node=s.call)
                 if st == "INFEASIBLE":
                     ctx.ob("C04-O4", "R1 STATUS-GUARD", f, f"Result#{k} INFEASIBLE only without incumbent", "best_solution is None" in at, "", node=s.call)
@@ -509,7 +531,7 @@ ML = "solvor/milp.py"
 
 def _v_budget_infeasible(tree):
     f = M.find_func(tree, "solve_milp")
-    M.replace_expr(f, lambda e: isinstance(e, ast.IfExp) and M.src_is(e.test, "not tree") and M.src_has(e, "INFEASIBLE"), M.expr("Status.INFEASIBLE"))
+    M.replace_expr(f, lambda e: isinstance(e, ast.IfExp) and M.src_has(e.test, "not tree") and M.src_has(e, "INFEASIBLE"), M.expr("Status.INFEASIBLE"))
 
 
 def _v_prune_wrong_sign(tree):
@@ -559,7 +581,7 @@ def _v_stale_objective(tree):
 
 def _v_optimal_after_budget(tree):
     f = M.find_func(tree, "solve_milp")
-    M.replace_expr(f, lambda e: isinstance(e, ast.IfExp) and M.src_is(e, "Status.OPTIMAL if not tree else Status.FEASIBLE"), M.expr("Status.OPTIMAL"))
+    M.replace_expr(f, lambda e: isinstance(e, ast.IfExp) and M.src_has(e.test, "not tree") and M.src_is(e.body, "Status.OPTIMAL"), M.expr("Status.OPTIMAL"))
 
 
 def _v_round_no_gate(tree):
@@ -613,7 +635,7 @@ def _t_rename(tree):
 
 def _t_flag_status(tree):
     f = M.find_func(tree, "solve_milp")
-    M.replace_expr(f, lambda e: isinstance(e, ast.IfExp) and M.src_is(e, "Status.OPTIMAL if not tree else Status.FEASIBLE"), M.expr("Status.FEASIBLE if tree else Status.OPTIMAL"))
+    M.replace_expr(f, lambda e: isinstance(e, ast.IfExp) and M.src_has(e.test, "not tree") and M.src_is(e.body, "Status.OPTIMAL"), M.expr("Status.FEASIBLE if tree or lp_budget_hit else Status.OPTIMAL"))
 
 
 def _v_skip_zero_rows(tree):
@@ -621,7 +643,32 @@ def _v_skip_zero_rows(tree):
     M.replace_stmt(g, lambda s: M.src_has(s, "A_red.append([row[j] for j in free_vars])") and isinstance(s, ast.Expr), M.stmts("if not any((abs(row[j]) > eps for j in free_vars)):\n    continue\nA_red.append([row[j] for j in free_vars])"))
 
 
+def _v_root_budget_unchecked(tree):
+    g = M.find_func(tree, "solve_milp")
+    M.replace_stmt(g, lambda s: isinstance(s, ast.If) and M.src_is(s.test, "root_result.status == LPStatus.MAX_ITER"), [])
+
+
+def _v_node_budget_dropped(tree):
+    g = M.find_func(tree, "solve_milp")
+    M.replace_stmt(g, lambda s: isinstance(s, ast.If) and M.src_is(s.test, "result.status == LPStatus.MAX_ITER"), [])
+
+
+def _v_gap_exit_ignores_flag(tree):
+    g = M.find_func(tree, "solve_milp")
+    M.replace_expr(g, lambda e: M.src_is(e, "gap < gap_tol and solution_limit == 1 and (not lp_budget_hit)"), M.expr("gap < gap_tol and solution_limit == 1"))
+
+
+def _v_detect_binary_integer_columns_only(tree):
+    g = M.find_func(tree, "_detect_binary")
+    if not M.replace_expr(g, lambda e: isinstance(e, ast.ListComp) and M.src_has(e, "abs(row[j]) > eps"), M.expr("[(j, row[j]) for j in int_set if abs(row[j]) > eps]")):
+        raise M.Skip("non-zero scan not found")
+
+
 VARIANTS = [
+    M.Variant("a root LP that ran out of iterations is used like an optimal one (original defect)", ML, _v_root_budget_unchecked, "C04-O4"),
+    M.Variant("a node LP that ran out of iterations is dropped without a trace (original defect)", ML, _v_node_budget_dropped, "C04-O"),
+    M.Variant("the gap-based OPTIMAL ignores unresolved node LPs", ML, _v_gap_exit_ignores_flag, "C04-O4"),
+    M.Variant("_detect_binary scans the integer columns only: x - 2y <= 1 counts as x <= 1 (seed C04-L)", ML, _v_detect_binary_integer_columns_only, "C04-O6"),
     M.Variant("node LP skips rows without free variables (seed C04-B)", ML, _v_skip_zero_rows, "C04-O8"),
 
     M.Variant("INFEASIBLE on node-budget exit (original defect)", ML, _v_budget_infeasible, "C04-O4"),
